@@ -10,7 +10,7 @@ from __future__ import annotations
 
 import itertools
 
-from mc.common import Ctx, pmap, rotate
+from mc.common import Ctx, pmap, rotate, pmap_tagged
 import mc.fd  # noqa: F401
 
 LEVEL = "model_checking"
@@ -91,7 +91,7 @@ def run(ctx: Ctx) -> None:
     pairs = [(a, b) for a in A_SPECS for b in B_SPECS]
     tasks = rotate([(a, b, h) for (a, b) in pairs for h in dict.fromkeys(hists)], ctx.seed)
     ctx.log(f"{len(tasks)} histories, each in its own process")
-    results = pmap(run_history, tasks, chunk=1, fresh=True)
+    results = pmap_tagged(run_history, tasks, chunk=1, fresh=True)
     base = {}
     for t, r in zip(tasks, results):
         if t[2] == ():
